@@ -24,14 +24,6 @@ pub(crate) fn parse_utf8(slice: &(impl AsRef<[u8]> + ?Sized)) -> Result<&str> {
   str::from_utf8(slice.as_ref()).map_err(Error::InvalidUtf8)
 }
 
-pub(crate) fn filter_non_empty_bytes<'a, T, U>(value: T) -> Option<&'a [u8]>
-where
-  T: Into<Option<&'a U>>,
-  U: AsRef<[u8]> + ?Sized + 'a,
-{
-  value.into().map(AsRef::as_ref).filter(|value| !value.is_empty())
-}
-
 pub(crate) fn create_message(header: &[u8], claims: &[u8]) -> Vec<u8> {
   let capacity: usize = header.len() + 1 + claims.len();
   let mut message: Vec<u8> = Vec::with_capacity(capacity);
